@@ -66,7 +66,11 @@ var adversarialBuckets = []string{"a", "ab", "abc", "b", "a|", "k", "ka"}
 
 func mkKVKeys(r *rand.Rand, n int) [][]byte {
 	base := []string{"a", "a\x00", "aa", "ab", "ab\x00", "abc", "b", "ba", "\xff", "\xff\xff", "k", "k0", "\x01",
-		"key-that-is-much-longer-than-the-others-0123456789", "\xff-long-key-at-the-upper-end-of-the-key-space"}
+		// two long keys. Their bytes are small on purpose (as are the filler bytes of long values below): after a torn or
+		// failed write, bytes of a key or value can end up where the reader expects a record header, and nutsdb
+		// allocates whatever the size fields say before it checks anything - text bytes there mean 1-2 GiB per read
+		"k\x01\x02\x01\x02\x01\x02\x01\x02\x01\x02\x01\x02\x01\x02\x01\x02\x01\x02\x01\x02\x01\x02\x01\x02\x01\x02\x01\x02\x01\x02\x01\x02\x01\x02\x01\x02\x01\x02\x01\x02\x01\x02\x01\x02\x01\x02\x01\x02",
+		"\xff\x01\x01\x02\x01\x01\x02\x01\x01\x02\x01\x01\x02\x01\x01\x02\x01\x01\x02\x01\x01\x02\x01\x01\x02\x01\x01\x02\x01\x01\x02\x01\x01\x02\x01\x01\x02\x01\x01\x02\x01\x01\x02\x01\x01"}
 	seen := map[string]bool{}
 	var out [][]byte
 	add := func(s string) {
@@ -158,7 +162,7 @@ func (g *Gen) value(bucket string, keyLen int) []byte {
 	case x <= 8 || !g.BigVals:
 		v = []byte(tag + "-" + string(make([]byte, g.R.Intn(24))))
 		for i := len(tag) + 1; i < len(v); i++ {
-			v[i] = byte('a' + g.R.Intn(26))
+			v[i] = byte(1 + g.R.Intn(3))
 		}
 	default:
 		n := max - g.R.Intn(4)
@@ -168,7 +172,7 @@ func (g *Gen) value(bucket string, keyLen int) []byte {
 		v = make([]byte, n)
 		copy(v, tag)
 		for i := len(tag); i < n; i++ {
-			v[i] = '.'
+			v[i] = 1
 		}
 	}
 	if len(v) > max {
